@@ -74,6 +74,17 @@ def conv_pool_inferred(ctx, true_axis):
             chain.append(("f", {"type": "Flatten", "kwargs": [["input_type", None], ["start_dim", gen.pyint(tail[0])],
                                                                 ["end_dim", gen.pyint(tail[1])]]}))
             ctx.count("inferred_with_downstream_flatten")
+        pool_after = None
+        if tail is None and which == "Conv2d" and len(want) == 3 and all(v >= 2 for v in want[1:]) and rng.random() < 0.6:
+            # a pooling node typed in the same inference run, right behind the (possibly dilated, strided) conv: its window
+            # arithmetic uses its own hyper-parameters only (dilation 1)
+            pk = [rng.randrange(2, min(4, v) + 1) for v in want[1:]]
+            pst = [rng.randrange(1, 3), rng.randrange(1, 3)]
+            pkind = rng.choice(["SumPool2d", "AvgPool2d"])
+            chain.append(("p", {"type": pkind, "kwargs": [["kernel_size", gen.hp(rng, pk)], ["stride", gen.hp(rng, pst)],
+                                                         ["padding", gen.hp(rng, [0, 0])]]}))
+            pool_after = [want[0]] + [true_axis(n, 0, 1, k, s) for n, k, s in zip(want[1:], pk, pst)]
+            ctx.count("inferred_conv_then_pool")
         chain.append(("out", {"type": "Output", "kwargs": [["output_type", None]]}))
         g = chain_recipe(chain)
         case = {"op": "graph", "graph": g, "ops": ["infer"]}
@@ -86,6 +97,10 @@ def conv_pool_inferred(ctx, true_axis):
             o = {"in": got_in, "out": got}
             if _ints(graph.nodes["in"].output_type.get("output")) != in_shape:
                 got_in = None; o["upstream"] = _ints(graph.nodes["in"].output_type.get("output"))
+            if pool_after is not None:
+                pin, pout = _ints(graph.nodes["p"].input_type.get("input")), _ints(graph.nodes["p"].output_type.get("output"))
+                if pin != want or pout != pool_after:
+                    got = None; o["pool_behind"] = {"in": pin, "out": pout, "want_out": pool_after}
         except Exception as e:  # noqa
             got_in = got = None
             o = {"err": err_name(e)}
